@@ -17,6 +17,8 @@ import traceback
 
 VERIF = os.path.dirname(os.path.dirname(os.path.abspath(__file__)))
 KNOWN_FINDINGS = os.path.join(VERIF, "known_findings.json")
+STANDING_ASSUMPTIONS = ["numpy / scipy / pandas behave as sa/libmodel.py says", "declared easy counts are non-negative integers",
+                        "loggers, clocks, warning filters and np.errstate neither produce nor change values"]
 
 
 def load_known(pid):
@@ -166,7 +168,7 @@ class Check:
         }
         cov.update(self.extra)
         ev = {"property_id": self.pid, "tier": self.tier, "seed": self.seed, "level": self.level,
-              "coverage": cov, "assumptions": self.assumptions, "wall_s": round(time.time() - self.t0, 3),
+              "coverage": cov, "assumptions": list(self.assumptions) + STANDING_ASSUMPTIONS, "wall_s": round(time.time() - self.t0, 3),
               "violations": n_viol}
         with open(os.path.join(d, self.pid + ".json"), "w") as f:
             json.dump(ev, f, indent=1, default=str)
